@@ -15802,6 +15802,9 @@ R_<TG_, TA_>::initialEnter() noexcept {
 	RegistryBackUp backup;
 	_core.registry.backup(backup);
 
+	// pins are written while requests are applied, they follow the fate of their round
+	HFSM2_IF_TRANSITION_HISTORY(TransitionTargets approvedTargets{_core.transitionTargets});
+
 	for (Long s = 0;
 		 s < SUBSTITUTION_LIMIT && _core.requests.count();
 		 ++s)
@@ -15822,17 +15825,21 @@ R_<TG_, TA_>::initialEnter() noexcept {
 			{
 				currentTransitions += pendingTransitions;
 				_core.registry.backup(backup);
+				HFSM2_IF_TRANSITION_HISTORY(approvedTargets = _core.transitionTargets);
 			}
 			else {
 				HFSM2_BREAK();
 
+				HFSM2_IF_TRANSITION_HISTORY(_core.transitionTargets = approvedTargets);
 				_core.registry.restore(backup);
 			}
 
 			pendingTransitions.clear();
 		}
-		else
+		else {
+			HFSM2_IF_TRANSITION_HISTORY(_core.transitionTargets = approvedTargets);
 			_core.requests.clear();
+		}
 	}
 	HFSM2_ASSERT(_core.requests.count() == 0);
 	HFSM2_IF_TRANSITION_HISTORY(_core.previousTransitions = currentTransitions);
@@ -15908,6 +15915,9 @@ R_<TG_, TA_>::processTransitions(TransitionSets& currentTransitions) noexcept {
 	RegistryBackUp backup;
 	_core.registry.backup(backup);
 
+	// pins are written while requests are applied, they follow the fate of their round
+	HFSM2_IF_TRANSITION_HISTORY(TransitionTargets approvedTargets{_core.transitionTargets});
+
 	for (Long s = 0;
 		 s < SUBSTITUTION_LIMIT && _core.requests.count();
 		 ++s)
@@ -15928,16 +15938,19 @@ R_<TG_, TA_>::processTransitions(TransitionSets& currentTransitions) noexcept {
 			{
 				currentTransitions += pendingTransitions;
 				_core.registry.backup(backup);
+				HFSM2_IF_TRANSITION_HISTORY(approvedTargets = _core.transitionTargets);
 			}
 			else {
-				HFSM2_IF_TRANSITION_HISTORY(_core.transitionTargets.clear());
+				HFSM2_IF_TRANSITION_HISTORY(_core.transitionTargets = approvedTargets);
 				_core.registry.restore(backup);
 			}
 
 			pendingTransitions.clear();
 		}
-		else
+		else {
+			HFSM2_IF_TRANSITION_HISTORY(_core.transitionTargets = approvedTargets);
 			_core.requests.clear();
+		}
 	}
 	HFSM2_ASSERT(_core.requests.count() == 0);
 
